@@ -14,7 +14,7 @@ import leafgen as lg
 import treegen as tg
 
 ID = 'C17'
-GEN = ['kernels']
+GEN = ['kernels', 'deviceset', 'mfdeviceset']
 PROPS = 'Props/C17.v'
 MODEL_VO = ['Model/Tree.v']
 SHARD = 40
